@@ -439,6 +439,7 @@ def _check(ctx):
               b"GET / HTTP/1.1\r\nHost: x\r\nContent-Length: 3\r\nTransfer-Encoding: chunked\r\n\r\n0\r\n\r\n",
               b"POST / HTTP/1.1\r\nHost: x\r\nContent-Length: +3\r\n\r\nabc", b"GET / HTTP/1.1\r\n\r\n",
               b"GET / HTTP/1.0\r\n\r\nGET /smuggled HTTP/1.1\r\nHost: x\r\n\r\n"]
+    corpus = corpus + [d for d, k, r in H.deterministic_mutants(10 if ctx.quick else 16) if not r]     # fixed stream: first on every seed
     for i in range(n + len(corpus)):
         if i < len(corpus):
             data, kind = corpus[i], "corpus"
